@@ -49,6 +49,9 @@ type c09Case struct {
 	// Hold0: the remote's OPEN proposes hold time 0 (no session timers); every
 	// cell of the table must read the same
 	Hold0 bool `json:"hold0,omitempty"`
+	// NilHandler: OnEstablished returns a nil UpdateMessageHandler (a send-only speaker);
+	// an UPDATE in Established is legal all the same (seeded change C09w)
+	NilHandler bool `json:"nil_handler,omitempty"`
 	// OpenVar: the unexpected OPEN (OpenConfirm / Established only) is well-formed but
 	// would be unacceptable as a first OPEN: "version" (3), "as" (another AS), "hold"
 	// (hold time 1), "id" (identifier 0). It is still a message of type OPEN.
@@ -75,7 +78,7 @@ func c09Prop(t *testing.T, r *hx.Run, sub string) func(c c09Case) hx.Verdict {
 			dir = "out"
 		}
 		v := hx.Verdict{Class: fmt.Sprintf("%s/%s/%s", c.State, c.Stim, dir)}
-		v.NT = fmt.Sprintf("%s/%s/%s/%v/%x/%d/%d/%v/%d/%v/%v", c.State, c.Stim, dir, c.Notif, []byte(c.Raw), c.UpdLen, c.Hold, c.Prev, c.Partial, c.Busy, c.ThenFin) + fmt.Sprint(c.Hold0) + c.OpenVar + "/" + c.ThenMsg
+		v.NT = fmt.Sprintf("%s/%s/%s/%v/%x/%d/%d/%v/%d/%v/%v", c.State, c.Stim, dir, c.Notif, []byte(c.Raw), c.UpdLen, c.Hold, c.Prev, c.Partial, c.Busy, c.ThenFin) + fmt.Sprint(c.Hold0, c.NilHandler) + c.OpenVar + "/" + c.ThenMsg
 		p := basePeer(c.Out)
 		var dev *hx.Dev
 		fail := func(key, f string, a ...any) {
@@ -84,6 +87,7 @@ func c09Prop(t *testing.T, r *hx.Run, sub string) func(c c09Case) hx.Verdict {
 			}
 		}
 		p.IdleHoldMs, p.ConnRetryMs = 100, 1000
+		p.Plugin.NilHandler = c.NilHandler
 		busy := c.Busy && (c.State == stOpenConfirm || c.State == stEstablished) && c.Stim != "fin" && c.Stim != "rst" && c.Partial == 0
 		if busy {
 			p.Plugin.SpinUs = map[string]int64{"open": 300, "upd": 300}
@@ -239,7 +243,7 @@ func c09Prop(t *testing.T, r *hx.Run, sub string) func(c c09Case) hx.Verdict {
 						if st.LocalClosed || len(after) != 0 {
 							fail("legal-message-refused", "%s in Established: %d messages from corebgp, closed=%v", c.Stim, len(after), st.LocalClosed)
 						}
-						if c.Stim == "update" {
+						if c.Stim == "update" && !c.NilHandler {
 							var got [][]byte
 							for _, e := range w.Rec.Events() {
 								if e.K == "upd+" {
@@ -448,6 +452,7 @@ func TestC09(t *testing.T) {
 			}
 		}
 		c.Hold0 = rapid.IntRange(0, 3).Draw(rt, "hold0") == 0
+		c.NilHandler = rapid.IntRange(0, 3).Draw(rt, "nilhandler") == 0
 		c.Busy = rapid.IntRange(0, 2).Draw(rt, "busy") == 0
 		c.ThenFin = rapid.IntRange(0, 2).Draw(rt, "thenfin") == 0
 		if c.Stim != "fin" && c.Stim != "rst" {
